@@ -27,7 +27,9 @@ package message
 //@   ensures plain_payload: err == nil && !(strmEncrypting && strmKeyed) ==> len(wrLast) == 5 + len(data) && forall i :: 0 <= i && i < len(data) ==> wrLast[5+i] == old(data[i])
 //@   ensures sealed: err == nil && strmEncrypting && strmKeyed ==> sealCount == old(sealCount) + 1 && sealPT == old(str(data))
 //@   ensures plain_noseal: !(strmEncrypting && strmKeyed) ==> sealCount == old(sealCount)
+//@   ensures monotone: wrCount >= old(wrCount) && sealCount >= old(sealCount)
 //@   ensures at_most_one: wrCount <= old(wrCount) + 1
+//@   ensures all_sealed: strmEncrypting && strmKeyed ==> wrCount - old(wrCount) <= sealCount - old(sealCount)
 
 //@ func StreamInterface.ReadFrame (ctx) (data, isEOM, err)
 //@   props C01 C02 C13
@@ -82,7 +84,9 @@ package message
 //@   ensures flushed: [C01] err == nil ==> viewLen(m) == 0 && wrCount == old(wrCount) + 1 && wrLast[0] == ite(isEOM, 1, 0)
 //@   ensures plain_payload: [C01 C14] err == nil && !(strmEncrypting && strmKeyed) ==> len(wrLast) == 5 + old(viewLen(m)) && forall i :: 0 <= i && i < old(viewLen(m)) ==> wrLast[5+i] == old(viewAt(m, i))
 //@   ensures sealed_payload: [C09] err == nil && strmEncrypting && strmKeyed ==> sealCount == old(sealCount) + 1
+//@   ensures all_sealed: [C09] strmEncrypting && strmKeyed ==> wrCount - old(wrCount) <= sealCount - old(sealCount)
 //@   ensures plain_noseal: [C09] !(strmEncrypting && strmKeyed) ==> sealCount == old(sealCount)
+//@   ensures monotone: [C09] wrCount >= old(wrCount) && sealCount >= old(sealCount)
 //@   ensures kept_on_error: [C01] err != nil ==> viewLen(m) == old(viewLen(m))
 //@   ensures buf_own: ref(m.buffer.buf) == old(ref(m.buffer.buf)) || fresh(m.buffer.buf)
 //@   ensures at_most_one: wrCount <= old(wrCount) + 1
@@ -93,6 +97,9 @@ package message
 //@   props C01
 //@   requires inv: encInv(m)
 //@   assigns @msgWrite
+//@   ensures all_sealed: [C09] strmEncrypting && strmKeyed ==> wrCount - old(wrCount) <= sealCount - old(sealCount)
+//@   ensures none_sealed: [C09] !(strmEncrypting && strmKeyed) ==> sealCount == old(sealCount)
+//@   ensures monotone: [C09] wrCount >= old(wrCount) && sealCount >= old(sealCount)
 //@   ensures final: err == nil ==> viewLen(m) == 0 && wrCount == old(wrCount) + 1 && wrLast[0] == 1
 //@   ensures inv_kept: encInv(m)
 //@   ensures buf_own: ref(m.buffer.buf) == old(ref(m.buffer.buf)) || fresh(m.buffer.buf)
@@ -151,6 +158,9 @@ package message
 //@   props C14 C01
 //@   requires inv: encInv(m)
 //@   assigns @msgWrite
+//@   ensures all_sealed: [C09] strmEncrypting && strmKeyed ==> wrCount - old(wrCount) <= sealCount - old(sealCount)
+//@   ensures none_sealed: [C09] !(strmEncrypting && strmKeyed) ==> sealCount == old(sealCount)
+//@   ensures monotone: [C09] wrCount >= old(wrCount) && sealCount >= old(sealCount)
 //@   ensures appended: [C14] err == nil && old(viewLen(m)) < 16384 ==> viewLen(m) == old(viewLen(m)) + 1 && viewAt(m, old(viewLen(m))) == c && wrCount == old(wrCount) && forall i :: 0 <= i && i < old(viewLen(m)) ==> viewAt(m, i) == old(viewAt(m, i))
 //@   ensures flushed_first: [C01] err == nil && old(viewLen(m)) >= 16384 ==> wrCount == old(wrCount) + 1 && wrLast[0] == 0 && viewLen(m) == 1 && viewAt(m, 0) == c
 //@   ensures inv_kept: encInv(m)
@@ -160,6 +170,9 @@ package message
 //@   props C14 C01
 //@   requires inv: encInv(m)
 //@   assigns @msgWrite
+//@   ensures all_sealed: [C09] strmEncrypting && strmKeyed ==> wrCount - old(wrCount) <= sealCount - old(sealCount)
+//@   ensures none_sealed: [C09] !(strmEncrypting && strmKeyed) ==> sealCount == old(sealCount)
+//@   ensures monotone: [C09] wrCount >= old(wrCount) && sealCount >= old(sealCount)
 //@   let V0 = old(viewLen(m))
 //@   let base = ite(V0 + 8 > 16384, 0, V0)
 //@   ensures layout: [C14] err == nil ==> viewLen(m) == base + 8 && viewBE64(m, base) == value % 18446744073709551616
@@ -173,6 +186,9 @@ package message
 //@   props C14
 //@   requires inv: encInv(m)
 //@   assigns @msgWrite
+//@   ensures all_sealed: [C09] strmEncrypting && strmKeyed ==> wrCount - old(wrCount) <= sealCount - old(sealCount)
+//@   ensures none_sealed: [C09] !(strmEncrypting && strmKeyed) ==> sealCount == old(sealCount)
+//@   ensures monotone: [C09] wrCount >= old(wrCount) && sealCount >= old(sealCount)
 //@   let base = ite(old(viewLen(m)) + 8 > 16384, 0, old(viewLen(m)))
 //@   ensures layout: err == nil ==> viewLen(m) == base + 8 && viewBE64(m, base) == value % 18446744073709551616
 //@   ensures kept: err == nil && old(viewLen(m)) + 8 <= 16384 ==> wrCount == old(wrCount) && forall i :: 0 <= i && i < old(viewLen(m)) ==> viewAt(m, i) == old(viewAt(m, i))
@@ -202,8 +218,12 @@ package message
 //@   requires inv: encInv(m)
 //@   requires noalias: ref(data) >= 0 && (ref(data) != ref(m.buffer.buf) || ref(data) == 0)
 //@   assigns @msgWrite
+//@   ensures all_sealed: [C09] strmEncrypting && strmKeyed ==> wrCount - old(wrCount) <= sealCount - old(sealCount)
+//@   ensures none_sealed: [C09] !(strmEncrypting && strmKeyed) ==> sealCount == old(sealCount)
+//@   ensures monotone: [C09] wrCount >= old(wrCount) && sealCount >= old(sealCount)
 //@   loop 1 invariant inv: encInv(m) && m.buffer == old(m.buffer) && m.stream == old(m.stream) && m.direction == old(m.direction) && 0 <= offset && offset <= len(data) && wrCount >= old(wrCount)
 //@   loop 1 invariant progress: offset == 0 || viewLen(m) > 0
+//@   loop 1 invariant seals: sealCount >= old(sealCount) && (strmEncrypting && strmKeyed ==> wrCount - old(wrCount) <= sealCount - old(sealCount)) && (!(strmEncrypting && strmKeyed) ==> sealCount == old(sealCount))
 //@   loop 1 invariant buf_own: ref(m.buffer.buf) == old(ref(m.buffer.buf)) || fresh(m.buffer.buf)
 //@   loop 1 decreases len(data) - offset
 //@   ensures wrong_dir: m.direction != CodingEncode ==> err != nil && wrCount == old(wrCount)
@@ -299,6 +319,9 @@ package message
 //@   requires inv: encInv(m)
 //@   requires noalias: ref(b) >= 0 && (ref(b) != ref(m.buffer.buf) || ref(b) == 0)
 //@   assigns @msgWrite
+//@   ensures all_sealed: [C09] strmEncrypting && strmKeyed ==> wrCount - old(wrCount) <= sealCount - old(sealCount)
+//@   ensures none_sealed: [C09] !(strmEncrypting && strmKeyed) ==> sealCount == old(sealCount)
+//@   ensures monotone: [C09] wrCount >= old(wrCount) && sealCount >= old(sealCount)
 //@   ensures inv_kept: [C01] encInv(m)
 //@   ensures buf_own: ref(m.buffer.buf) == old(ref(m.buffer.buf)) || fresh(m.buffer.buf)
 
@@ -306,6 +329,9 @@ package message
 //@   props C01 C14 C09
 //@   requires inv: encInv(m)
 //@   assigns @msgWrite
+//@   ensures all_sealed: [C09] strmEncrypting && strmKeyed ==> wrCount - old(wrCount) <= sealCount - old(sealCount)
+//@   ensures none_sealed: [C09] !(strmEncrypting && strmKeyed) ==> sealCount == old(sealCount)
+//@   ensures monotone: [C09] wrCount >= old(wrCount) && sealCount >= old(sealCount)
 //@   ensures inv_kept: [C01] encInv(m)
 //@   ensures buf_own: ref(m.buffer.buf) == old(ref(m.buffer.buf)) || fresh(m.buffer.buf)
 
@@ -348,3 +374,86 @@ package message
 //@   hyp -9223372036854775808 <= v && v <= 9223372036854775807 && u == v % 18446744073709551616
 //@   concl s64(u) == v
 //@ end
+
+// ---- C09: private attributes ----------------------------------------------------------------------------------
+//@ func (*HTCondorVersion).BuiltSinceVersion
+//@   props C09
+//@   pure
+//@   ensures lexicographic: result == (v.Major > major || (v.Major == major && (v.Minor > minor || (v.Minor == minor && v.Patch >= patch))))
+
+//@ pred inList(a, l) = exists i :: 0 <= i && i < len(l) && l[i] == a
+//@ pred attrAllowed(a, excl, exclV2, enc) = !(excl && (privV1(a) || privV2(a) || inList(a, enc))) && !(exclV2 && privV2(a))
+
+//@ func isAttrInList
+//@   props C09
+//@   pure
+//@   loop 1 invariant none_before: forall j :: 0 <= j && j <= rangeindex ==> list[j] != attr
+//@   ensures found: result ==> inList(attr, list)
+//@   ensures complete: !result ==> forall j :: 0 <= j && j < len(list) ==> list[j] != attr
+
+//@ func filterAttributesByPrivacy
+//@   props C09
+//@   assigns nothing
+//@   loop 1 invariant filtered: (result == nil || fresh(result)) && ref(result) >= 0 && forall k :: 0 <= k && k < len(result) ==> attrAllowed(result[k], excludePrivate, excludePrivateV2, encryptedAttrs)
+//@   ensures filter_post: forall k :: 0 <= k && k < len(result) ==> attrAllowed(result[k], excludePrivate, excludePrivateV2, encryptedAttrs)
+//@   ensures owned: result == nil || fresh(result)
+
+//@ func filterAttributesByWhitelist
+//@   props C09
+//@   assigns nothing
+//@   loop 2 invariant filtered: (result == nil || fresh(result)) && ref(result) >= 0 && forall k :: 0 <= k && k < len(result) ==> attrAllowed(result[k], excludePrivate, excludePrivateV2, encryptedAttrs)
+//@   ensures filter_post: forall k :: 0 <= k && k < len(result) ==> attrAllowed(result[k], excludePrivate, excludePrivateV2, encryptedAttrs)
+//@   ensures owned: result == nil || fresh(result)
+
+//@ ghost var strmSaved bool
+
+//@ func github.com/bbockelm/cedar/message.secretCrypto.CryptoForSecretIsNoop () (result)
+//@   props C09
+//@   pure
+//@   ensures result == (!strmKeyed || strmEncrypting)
+//@ func github.com/bbockelm/cedar/message.secretCrypto.PrepareCryptoForSecret ()
+//@   props C09
+//@   assigns strmEncrypting, strmSaved, ifaceobj(self, "*stream.Stream")
+//@   ensures strmSaved == old(strmEncrypting) && strmEncrypting == (old(strmEncrypting) || strmKeyed)
+//@ func github.com/bbockelm/cedar/message.secretCrypto.RestoreCryptoAfterSecret ()
+//@   props C09
+//@   assigns strmEncrypting, ifaceobj(self, "*stream.Stream")
+//@   ensures strmEncrypting == strmSaved
+
+//@ func (*Message).putSecretExpr
+//@   props C09
+//@   requires inv: encInv(m)
+//@   assigns @msgWrite, strmEncrypting, strmSaved
+//@   let canSeal = typeis(m.stream, "*stream.Stream") && old(strmKeyed)
+//@   ensures restored: strmEncrypting == old(strmEncrypting)
+//@   assert before call PutString #2 secret_buffered_while_encrypting: typeis(m.stream, "*stream.Stream") && strmKeyed ==> strmEncrypting && viewLen(m) == 0
+//@   assert before call FlushFrame #2 secret_flushed_while_encrypting: typeis(m.stream, "*stream.Stream") && strmKeyed ==> strmEncrypting
+//@   ensures secret_sealed: err == nil && canSeal ==> sealCount >= old(sealCount) + 1 && wrCount >= old(wrCount) + 2
+//@   ensures nothing_buffered: err == nil ==> viewLen(m) == 0
+//@   ensures inv_kept: encInv(m)
+//@   ensures buf_own: ref(m.buffer.buf) == old(ref(m.buffer.buf)) || fresh(m.buffer.buf)
+
+//@ func (*Message).getSecretString (m, ctx) (result, err)
+//@   props C09 C13
+//@   requires inv: msgInv(m)
+//@   assigns @msgRead, strmEncrypting, strmSaved
+//@   ensures restored: typeis(m.stream, "*stream.Stream") ==> strmEncrypting == old(strmEncrypting)
+//@   ensures inv_kept: msgInv(m)
+
+//@ pred wantPrivate(opts) = bit(opts, 5) && !bit(opts, 1)
+//@ pred sinceVer(v, a, b, c) = v.Major > a || (v.Major == a && (v.Minor > b || (v.Minor == b && v.Patch >= c)))
+//@ pred exclOf(c) = c == nil || !wantPrivate(c.Options)
+//@ pred exclV2Of(c) = exclOf(c) || (c != nil && c.PeerVersion != nil && !sinceVer(c.PeerVersion, 9, 9, 0))
+
+//@ func putClassAdToMessageWithOptions
+//@   props C09
+//@   requires inv: encInv(m) && ad != nil
+//@   assigns @msgWrite, strmEncrypting, strmSaved
+//@   assert before call filterAttributesByPrivacy #1 flags_from_statement: arg1 == exclOf(config) && arg2 == exclV2Of(config)
+//@   assert before call filterAttributesByWhitelist #1 flags_from_statement: arg3 == exclOf(config) && arg4 == exclV2Of(config)
+//@   assert before call PutString #2 private_never_plain_when_keyed: typeis(m.stream, "*stream.Stream") && strmKeyed && !strmEncrypting ==> !(privV1(fmtArg0(arg2)) || privV2(fmtArg0(arg2)))
+//@   assert before call PutString #2 only_filtered: !(exclOf(config) && (privV1(fmtArg0(arg2)) || privV2(fmtArg0(arg2)))) && !(exclV2Of(config) && privV2(fmtArg0(arg2)))
+//@   assert before call putSecretExpr #1 only_filtered: !(exclOf(config) && (privV1(fmtArg0(arg2)) || privV2(fmtArg0(arg2)))) && !(exclV2Of(config) && privV2(fmtArg0(arg2)))
+//@   loop 1 invariant inv: encInv(m) && m.buffer == old(m.buffer) && m.stream == old(m.stream) && strmEncrypting == old(strmEncrypting) && (ref(m.buffer.buf) == old(ref(m.buffer.buf)) || fresh(m.buffer.buf))
+//@   ensures restored: strmEncrypting == old(strmEncrypting)
+//@   ensures inv_kept: encInv(m)
